@@ -63,3 +63,16 @@ func VerifState() VerifSnapshot {
 
 	return s
 }
+
+// VerifNames returns the sorted names under which templates are registered.
+func VerifNames(t *Template) []string {
+	names := make([]string, 0, len(t.programs))
+
+	for name := range t.programs {
+		names = append(names, name)
+	}
+
+	sort.Strings(names)
+
+	return names
+}
